@@ -1277,12 +1277,12 @@ pub fn property() -> Property {
                 "one case = header + 0..10 records, each record one evaluation; non-trivial = some record has an INFO field or sample columns; distinct by hash of the case",
                 strategy,
                 check,
-                12_000,
-                400_000,
+                60_000,
+                800_000,
             )
             .boxed(),
-            sub("reject", "one unrepresentable element injected into a valid document; every case non-trivial; distinct by hash of the case", reject_strategy, check_reject, 8_000, 250_000).boxed(),
-            sub("safe_domain", "documents of Mode::bcf_safe() (what other properties reuse): must pass all round-trip oracles with no known finding", safe_strategy, check_safe, 3_000, 60_000).boxed(),
+            sub("reject", "one unrepresentable element injected into a valid document; every case non-trivial; distinct by hash of the case", reject_strategy, check_reject, 40_000, 500_000).boxed(),
+            sub("safe_domain", "documents of Mode::bcf_safe() (what other properties reuse): must pass all round-trip oracles with no known finding", safe_strategy, check_safe, 12_000, 120_000).boxed(),
         ],
         max_parallel: 16,
     }
